@@ -1327,10 +1327,11 @@ def build(chk):
                 rc, out = common.sh('timeout 600 make Proofs/LocateheadGen.vo 2>&1 | tail -25', timeout=630, cwd=common.COQ)
             chk.notes.append('make Proofs/LocateheadGen.vo (generated head of locate = model): ' + out[-2500:])
     # the executable models of the correspondence run, needed whatever happened above
-    want = ['Model/EquivarianceCheck.vo', 'Model/LocateWholeCheck.vo', 'Model/COMCheck.vo', 'Model/LocateheadCheck.vo']
+    want = ['Model/EquivarianceCheck.vo', 'Model/LocateWholeCheck.vo', 'Model/COMCheck.vo', 'Model/LocateheadCheck.vo', 'Model/LocateheadCheck2.vo']
     with common.Lock(os.path.join(common.COQ, '.build.lock')):
         rc, out = common.sh('timeout 900 make %s 2>&1 | tail -25' % ' '.join(want), timeout=930, cwd=common.COQ)
-    head_ok = os.path.exists(os.path.join(common.COQ, 'Model', 'LocateheadCheck.vo')) and rc == 0
+    head_ok = (os.path.exists(os.path.join(common.COQ, 'Model', 'LocateheadCheck.vo'))
+               and os.path.exists(os.path.join(common.COQ, 'Model', 'LocateheadCheck2.vo')) and rc == 0)
     if not head_ok:
         chk.notes.append('make of the executable models: ' + out[-1500:])
     return head_ok, ok
@@ -1465,6 +1466,191 @@ def run_head(chk, cases, use_gen=True):
                           '(validation, defaults, clipping, margin; Model/LocatePipe2.locate_py) and the generated locate: ' + what,
                           dict(j_head(c), observed=obs, code=code))
     return used
+
+
+# ------------------------------------------------------------------ (P) the preprocessing steps of the head, replayed concretely
+# convert_to_int on float images, invert_image, and the default threshold locate hands to bandpass for an integer
+# image (preprocess=True): the implementation against the EXECUTED generated functions (Model/LocateheadCheck2.v)
+IMPORTS_P = "From Coq Require Import String.\nFrom TP Require Import Model.PyLocatehead Model.LocateheadCheck2."
+PRE_FUNCS = {'pre_convert': 'check_convert', 'pre_invert_int': 'check_invert_int', 'pre_invert_flt': 'check_invert_flt',
+             'pre_threshold': 'check_threshold'}
+PRE_CODES = {1: 'scale factor', 2: 'shape', 3: 'a pixel', 4: 'the generated function raised', 5: 'dtype of the result',
+             6: 'the generated bandpass raised', 11: 'scalefactor_to_gamut', 12: 'scale_to_gamut: shape', 13: 'scale_to_gamut: a pixel',
+             14: 'generated scale_to_gamut raised', 15: 'scale_to_gamut: dtype'}
+PRE_WHAT = {'pre_convert': 'preprocessing.convert_to_int / scale_to_gamut on a float image',
+            'pre_invert_int': 'preprocessing.invert_image on an integer image',
+            'pre_invert_flt': 'preprocessing.invert_image on a float image',
+            'pre_threshold': 'locate(preprocess=True, threshold=None) on an integer image: the image handed to grey_dilation'}
+IINFO_DIVISORS = {'uint8': [1, 3, 5, 15, 17, 51, 85, 255], 'uint16': [1, 3, 5, 15, 17, 51, 257, 771], 'int16': [1, 7, 31, 151, 217]}
+
+
+def cqrows(a):
+    return clist([clist([cQ(float(v)) for v in r]) for r in a])
+
+
+def czrows(a):
+    return clist([clist([cZ(int(v)) for v in r]) for r in a])
+
+
+def gen_pre_case(rng, kind):
+    rng = np.random.default_rng(rng.getrandbits(64))
+    h, w = int(rng.integers(2, 6)), int(rng.integers(2, 6))
+    if kind == 'pre_convert':
+        dtype = ['uint8', 'uint8', 'uint16', 'int16'][int(rng.integers(4))]
+        fam = ['dyadic', 'dyadic', 'general', 'general', 'negative', 'zero_max', 'all_negative'][int(rng.integers(7))]
+        if fam == 'dyadic':
+            # image.max() = d * 2^e with d | iinfo.max: the scale factor and every product are exact in float64
+            d = int(rng.choice(IINFO_DIVISORS[dtype])); e = int(rng.integers(-6, 3))
+            vmax = d * 2.0 ** e
+            img = np.floor(rng.uniform(-0.4, 1.0, (h, w)) * vmax * 64) / 64
+            img = np.minimum(img, vmax)
+            img[int(rng.integers(h)), int(rng.integers(w))] = vmax
+        elif fam == 'general':
+            img = rng.uniform(-0.2, 1.0, (h, w)) * float(rng.choice([1.0, 0.37, 255.0, 1000.0, 3.3e-3]))
+            img[int(rng.integers(h)), int(rng.integers(w))] = abs(img).max() + 0.01
+        elif fam == 'negative':
+            img = rng.uniform(-1.0, 0.3, (h, w)) * float(rng.choice([1.0, 17.5, 250.0]))
+            img[int(rng.integers(h)), int(rng.integers(w))] = float(rng.choice([0.25, 1.0, 9.75]))
+        elif fam == 'zero_max':
+            img = -np.floor(rng.uniform(0, 4, (h, w)) * 8) / 8 * (rng.random((h, w)) < 0.6)
+            img[int(rng.integers(h)), int(rng.integers(w))] = 0.0
+        else:
+            img = -rng.uniform(0.1, 3.0, (h, w))
+        return dict(kind=kind, family=fam, dtype=dtype, image=np.asarray(img, dtype=np.float64))
+    if kind == 'pre_invert_int':
+        dtype = ['uint8', 'uint16', 'int16', 'int8', 'int32', 'uint32'][int(rng.integers(6))]
+        ii = np.iinfo(dtype)
+        img = rng.integers(ii.min, ii.max, (h, w), dtype=np.int64, endpoint=True).astype(dtype)
+        img.flat[0] = ii.max
+        if img.size > 1:
+            img.flat[1] = ii.min
+        return dict(kind=kind, dtype=dtype, image=img)
+    if kind == 'pre_invert_flt':
+        img = rng.uniform(-2.0, 3.0, (h, w)) if rng.random() < 0.5 else np.floor(rng.uniform(-2.0, 3.0, (h, w)) * 256) / 256
+        return dict(kind=kind, image=np.asarray(img, dtype=np.float64))
+    # pre_threshold: an integer image on the lattice of multiples of diameter^2 -- there every pass of the boxcar
+    # (which scipy casts back to the integer dtype of the raw image, a step the float model of bandpass does not have)
+    # is exact, so that model and implementation compute the same band-passed values up to rounding
+    dtype = ['uint8', 'uint16'][int(rng.integers(2))]
+    d = int(rng.choice([3, 3, 5]))
+    u = d * d
+    h, w = int(rng.integers(11, 15)), int(rng.integers(11, 15))
+    yy, xx = np.mgrid[0:h, 0:w]
+    f = np.zeros((h, w))
+    top = 250 if dtype == 'uint8' else int(rng.choice([400, 3000, 60000]))
+    for k in range(int(rng.integers(1, 4))):
+        cy, cx = rng.uniform(3, h - 4), rng.uniform(3, w - 4)
+        f += rng.uniform(0.25, 0.95) * top * np.exp(-((yy - cy) ** 2 + (xx - cx) ** 2) / (2 * rng.uniform(0.8, 2.2) ** 2))
+    f += u * int(rng.integers(0, 3))
+    img = (np.round(np.clip(f, 0, top) / u) * u).astype(dtype)
+    return dict(kind=kind, dtype=dtype, diameter=d, image=img)
+
+
+def j_pre(c):
+    j = {k: v for k, v in c.items() if k != 'image'}
+    j['image'] = c['image'].tolist()
+    j['image_dtype'] = str(c['image'].dtype)
+    return j
+
+
+def unj_pre(j):
+    c = {k: v for k, v in j.items() if k not in ('image', 'image_dtype', 'observed', 'code')}
+    c['image'] = np.array(j['image'], dtype=j['image_dtype'])
+    return c
+
+
+def observe_pre(c):
+    """run the implementation; returns (term, nontrivial, note) or (None, False, complaint)"""
+    import trackpy as tp
+    from trackpy import preprocessing as pp
+    img = c['image']
+    k = c['kind']
+    with warnings.catch_warnings():
+        warnings.simplefilter('ignore')
+        if k == 'pre_convert':
+            dt = np.dtype(c['dtype'])
+            sf, out = pp.convert_to_int(img.copy(), dt)
+            if out.dtype != dt:
+                return None, False, 'convert_to_int returned dtype %s for dtype=%s' % (out.dtype, dt)
+            gam = "None"
+            if img.max() != 0:
+                gsf, gout = pp.scalefactor_to_gamut(img.copy(), dt), pp.scale_to_gamut(img.copy(), dt)
+                if gout.dtype != dt:
+                    return None, False, 'scale_to_gamut returned dtype %s for dtype=%s' % (gout.dtype, dt)
+                gam = "(Some (%s, %s))" % (cQ(float(gsf)), czrows(gout))
+            strict = c['family'] in ('dyadic', 'zero_max')
+            term = "(mkCC %s %s %s %s %s %s %s)" % (cqrows(img), cbool(dt.kind == 'i'), cZ(dt.itemsize * 8), cbool(strict),
+                                                  cQ(float(sf)), czrows(out), gam)
+            return term, bool((out > 0).any()) or c['family'] in ('zero_max', 'all_negative'), 'sf=%r' % float(sf)
+        if k == 'pre_invert_int':
+            out = pp.invert_image(img.copy())
+            if out.dtype != img.dtype:
+                return None, False, 'invert_image returned dtype %s for a %s image' % (out.dtype, img.dtype)
+            term = "(mkIC %s %s %s %s)" % (cbool(img.dtype.kind == 'i'), cZ(img.dtype.itemsize * 8), czrows(img), czrows(out))
+            return term, True, ''
+        if k == 'pre_invert_flt':
+            out = pp.invert_image(img.copy())
+            if out.dtype != np.float64:
+                return None, False, 'invert_image returned dtype %s for a float64 image' % out.dtype
+            return "(mkFC %s %s)" % (cqrows(img), cqrows(out)), True, ''
+        # pre_threshold: observe the image locate hands to grey_dilation
+        import trackpy.feature as tf
+        seen = {}
+        orig = tf.grey_dilation
+
+        def spy(image, *a, **kw):
+            seen['image'] = np.array(image, copy=True)
+            return orig(image, *a, **kw)
+        tf.grey_dilation = spy
+        try:
+            tp.locate(img.copy(), c['diameter'], preprocess=True, characterize=False, engine='python', max_iterations=1)
+        finally:
+            tf.grey_dilation = orig
+        out = seen.get('image')
+        if out is None or out.dtype != img.dtype or out.shape != img.shape:
+            return None, False, 'locate handed grey_dilation %s' % ('nothing' if out is None else '%s %s for a %s %s image' % (out.dtype, out.shape, img.dtype, img.shape))
+        x = np.arange(-4, 5)
+        args = sorted(set((x ** 2 / (-2 * 1 ** 2)).tolist()))
+        table = clist(["(%s, %s)" % (cQ(float(a)), cQ(float(np.exp(a)))) for a in args])
+        term = "(mkTC %s %s %s %s %s %s)" % (cbool(img.dtype.kind == 'i'), cZ(img.dtype.itemsize * 8), czrows(img), cZ(c['diameter']),
+                                             table, czrows(out))
+        # non-trivial: some band-passed value lies between the float default 1/255 and the integer default 1 and would
+        # survive the conversion (a wrong default threshold changes the image)
+        R = pp.bandpass(img.copy(), 1, c['diameter'], threshold=-1e18)
+        B = np.where(R >= 1, R, 0)
+        sfac = np.iinfo(img.dtype).max / B.max() if B.max() > 0 else 1.0
+        sens = bool(((R > 1 / 255.) & (R < 1) & (sfac * R >= 1)).any())
+        return term, sens, 'threshold-sensitive pixels: %d' % int(((R > 1 / 255.) & (R < 1) & (sfac * R >= 1)).sum())
+
+
+def run_pre(chk, cases):
+    """harness (P): every case through the implementation, then through the executed generated function"""
+    by = {}
+    for c in cases:
+        try:
+            term, nontrivial, note = observe_pre(c)
+        except Exception as e:      # the implementation raised on a well-formed input
+            term, nontrivial, note = None, False, '%s: %s' % (type(e).__name__, e)
+        if term is None:
+            chk.violation('locate head (preprocessing): ' + PRE_WHAT[c['kind']] + ': unexpected behaviour', note, j_pre(c))
+            continue
+        by.setdefault(c['kind'], []).append((c, term, nontrivial, note))
+    res = []
+    for k, items in by.items():
+        codes = common.coq_eval_lists(chk.work, IMPORTS_P, PRE_FUNCS[k], [t for (_, t, _, _) in items], tag=k, shard=2 if k == 'pre_threshold' else 60)
+        for (c, _, nontrivial, note), code in zip(items, codes):
+            chk.count(('P', k, j_pre(c)['image'], c.get('dtype'), c.get('diameter')), nontrivial and code == 0)
+            chk.tally('pre: %s%s' % (k[4:], ' ' + c['family'] if 'family' in c else ''))
+            if k == 'pre_threshold':
+                chk.tally('pre: threshold %s' % ('skipped (band-passed value on the threshold)' if code == 99 else
+                                                 'sensitive to the default' if nontrivial else 'not sensitive to the default'))
+            if code not in (0, 99):
+                what = PRE_CODES.get(code, 'code %d' % code)
+                chk.violation('locate head (preprocessing): %s: %s' % (PRE_WHAT[k].split(':')[0], what),
+                              '%s differs from the executed generated function (Gen/locatehead.v): %s; %s' % (PRE_WHAT[k], what, note),
+                              dict(j_pre(c), code=code))
+            res.append((c, code, note))
+    return res
 
 
 def run(chk):
@@ -1644,6 +1830,16 @@ def run(chk):
         hc = [gen_head_case(rng) for _ in range(70 if quick else 600)]
         run_head(chk, hc, use_gen=translated)   # after a failed translation Gen/locatehead.v is stale: model against locate only
         chk.sample(dict(kind='head', dtype=str(hc[0]['image'].dtype), shape=list(hc[0]['image'].shape), params=hc[0]['params']))
+        # ---- (P) convert_to_int / invert_image / the default threshold, replayed against the executed generated functions
+        # (needs the current translation: the comparison is with Gen/locatehead.v itself; drawn last)
+        if translated:
+            nP = dict(pre_convert=40, pre_invert_int=12, pre_invert_flt=8, pre_threshold=8) if quick else \
+                 dict(pre_convert=400, pre_invert_int=80, pre_invert_flt=60, pre_threshold=60)
+            pc = [gen_pre_case(rng, k) for k, n in nP.items() for _ in range(n)]
+            run_pre(chk, pc)
+            chk.sample(dict(kind='pre_threshold', dtype=str(pc[-1]['image'].dtype), shape=list(pc[-1]['image'].shape), diameter=pc[-1]['diameter']))
+        else:
+            chk.tally('pre: skipped (Gen/locatehead.v is not the translation of the current source)')
     else:
         chk.tally('head: executable model not available (see the proof-broken report)')
     chk.coverage['rule'] = ("(T) content images (blobs, plateaus, dim ladders, noise, few grey levels, close pairs; uint8/uint16/float; 2-D/3-D) pasted at two "
@@ -1660,6 +1856,12 @@ def run(chk):
                             "(B2) 12-frame movies of ndarray-subclass frames numbered from 14..40 (frame_no kept or lost when pickled): sub-clip [3:9], reversed, strided, "
                             "reversed strided selections with processes 1/2/3 against the full movie's rows of those frames and against locate per frame; "
                             "(H) 11..18 x 11..18 uint8/uint16/int16 images (1-3 blobs, sparse noise, negative pixels for int16) with random Python-level arguments of locate (scalar / tuple diameter incl. even and wrong-length ones, separation, smoothing_size, noise_size incl. wrong lengths, minmass, topn, max_iterations, percentile), preprocess=False, characterize=False, engine=python: rows or ValueError message against Model/LocatePipe2.locate_py and the generated Gen/locatehead.py_locate; "
+                            "(P) the preprocessing steps of the head against the EXECUTED generated functions of Gen/locatehead.v (Model/LocateheadCheck2.v): "
+                            "convert_to_int / scale_to_gamut / scalefactor_to_gamut on 2..5 x 2..5 float images for dtype uint8/uint16/int16 (dyadic images on which every float operation is exact: compared exactly; "
+                            "general, mostly negative, image.max() == 0 and all-negative images: scale factor to 2^-50 relative, pixels exactly unless the exact product is within 2^-20 of an integer), "
+                            "invert_image on integer images of six dtypes incl. iinfo.min / iinfo.max (exact) and on float images (2^-50), and locate(preprocess=True, threshold=None) on 11..14 x 11..14 uint8/uint16 images "
+                            "whose values are multiples of diameter^2 (every integer boxcar pass exact): the image locate hands to grey_dilation (observed through a wrapper around trackpy.feature.grey_dilation) "
+                            "against the image component of the executed generated head; non-trivial = some band-passed value between 1/255 and 1 would survive the conversion (the integer default threshold matters); "
                             "Coq: discrete pipeline model vs grey_dilation+refine_com_arr, whole-pipeline model (incl. where_close, minmass, topn) vs locate's final table, model on two placements and on the transpose, verified table monitor. "
                             "non-trivial = at least one feature located; distinct by content hash")
     chk.assumptions += [
@@ -1669,7 +1871,7 @@ def run(chk):
         "Pool.imap hands results out in task order (modelled: completion order arbitrary, hand-out by index); that the workers compute what locate computes in-process is tested, not proved",
         "ecc (cos/sin masks) and the noise statistics (mean/std of background pixels) are float computations outside the model",
         "numba engine runs interpreted (numba absent)",
-        "route T (head of locate): tools/py2coq_locatehead.py (fail-closed) and the vocabulary Model/PyLocatehead.v are trusted; the generated locate equals the model for integer images, preprocess=False, the pure-python engine (C09_gen_locate_is_model_partial); float images, engine='numba' and the arithmetic inside bandpass for integer images are covered by the correspondence runs only"]
+        "route T (head of locate): tools/py2coq_locatehead.py (fail-closed) and the vocabulary Model/PyLocatehead.v are trusted; the generated locate equals the model for integer images, preprocess=False, every engine (C09_gen_locate_is_model; numba: 2-D / 3-D, diameter >= 3); theorem (14) (any axis order, tail included) is restated for the generated head followed by the tail model only (C09_gen_head_then_tail_axes_permuted_partial: the two tail models LocateWhole.tail_out / LocateTail.tail are not bridged row by row); float images end to end and the arithmetic inside bandpass for integer images (scipy casts each boxcar pass to the integer dtype: not modelled, harness (P) stays on the lattice where the cast is exact) are covered by the correspondence runs only"]
 
 
 def replay(chk, path):
@@ -1677,6 +1879,10 @@ def replay(chk, path):
     head_ok, translated = build(chk)
     j = json.load(open(path))['replay']
     k = j.get('kind')
+    if k in PRE_FUNCS:
+        res = run_pre(chk, [unj_pre(j)])
+        print('replay:', PRE_WHAT[k], '->', [(code, PRE_CODES.get(code, 'ok' if code == 0 else code), note) for (_, code, note) in res])
+        return
     if k == 'head':
         c = unj_head(j)
         used = run_head(chk, [c], use_gen=translated)
